@@ -5,14 +5,13 @@ Input line:
   {"fs":[[path,content],...], "env":{"noparent":[..],"ro":[..],"nonfile":[..]},
    "path":str, "overwrite":bool|null, "multifile":bool|null, "format_ok":bool,
    "dump":{"text":str}|{"fail":kind}, "wr":{"open":bool,"write":bool}, "validate_ok":bool,
-   "subs":[{"path":str,"kind":"cfg"|"content","text":{..},"wr":{..}},...]}
+   "subs":[{"path":str,"kind":"cfg"|"content","text":{..},"src":str,"read_ok":bool,"wr":{..}},...]}
 `null`/absent overwrite and multifile mean "keyword not passed" (the model's defaults).
 Output line: {"outcome":"ok"|kind, "fs":[[path,content],...], "early":bool}
 -/
 import Lean.Data.Json
 import Jap.Core.Save
 import Jap.Lemmas.Save
-import Jap.Props.C18
 
 open Lean Jap.Save
 
@@ -68,6 +67,8 @@ def subOf (j : Json) : Sub :=
   { path := getStr j "path",
     kind := if getStr j "kind" == "content" then .content else .cfg,
     text := outcomeOf (getObj j "text"),
+    src := getStr j "src",
+    readOk := getBoolD j "read_ok" true,
     wr := wrOf (getObj j "wr") }
 
 def fsOf (j : Json) : FS :=
@@ -95,7 +96,7 @@ def step (j : Json) : Json :=
     | .error x => errToString x
   Json.mkObj [("outcome", .str out),
               ("fs", .arr (r.2.map fun pc => Json.arr #[.str pc.1, .str pc.2]).toArray),
-              ("early", .bool (Jap.Props.C18.failsByFirstOpen env fs i))]
+              ("early", .bool (failsByFirstOpen env fs i))]
 
 partial def loop (h : IO.FS.Stream) (out : IO.FS.Stream) : IO Unit := do
   let line ← h.getLine
